@@ -76,7 +76,7 @@ namespace Givaro {
 #if __GIVARO_SIZEOF_LONG == 4
         return mpz_cmpabs_ui( (mpz_srcptr)&(a.gmp_rep), std::abs(b));
 #else
-        return mpz_cmpabs_ui( (mpz_srcptr)&(a.gmp_rep), (uint64_t) std::abs(b));
+        return mpz_cmpabs_ui( (mpz_srcptr)&(a.gmp_rep), (uint64_t) std::abs((int64_t)b));
 #endif
     }
 
